@@ -155,3 +155,10 @@ def run(ctx, report: Report) -> None:
     from .sem import lang_logic_table, lang_table
     lang_table(ctx, r6)
     lang_logic_table(ctx, r6)
+
+    # ---- R7 ----------------------------------------------------------------------------------------------
+    r7 = report.rule('C13-R7', 'extended_language_filter equals RFC 4647 extended filtering on all pairs over small subtag alphabets (bounded)',
+                     floor=1)
+    from .sem import lang_filter_table
+    lang_filter_table(ctx, r7, deep=ctx.tier == 'thorough')
+
